@@ -62,7 +62,7 @@ def main():
         })
     m = {
         'version': 1,
-        'setup_cmd': '/venv/bin/python -c "import py4hw, hypothesis" && /venv/bin/python selftest/smoke.py',
+        'setup_cmd': '/venv/bin/python -c "import py4hw" && /venv/bin/python selftest/smoke.py && /venv/bin/python -m dsim.vsim.selftest',
         'hooks': {'guard': 'PY4HW_VERIF', 'enable': 'no source hooks: every seam is a monkeypatch applied inside the check process (dsim/seams.py)',
                   'baseline_off_cmd': 'cd /repo && /venv/bin/python -m pytest -ra -q -p no:cacheprovider --timeout=900 --continue-on-collection-errors',
                   'source_commits': [], 'add_only': True},
